@@ -638,8 +638,11 @@ func (e *Extractor) extractSuffixes(re *syntax.Regexp, depth int) *Seq {
 				continue
 			}
 
-			// Can only extend with literal sub-expressions
-			if sub.Op != syntax.OpLiteral {
+			// Can only extend with case-sensitive literal sub-expressions, and only suffixes
+			// that cover the whole of what follows: a case-folded literal stands for several
+			// byte strings, and a suffix that is already partial (e.g. the last class of
+			// [0-9][0-9]) is not adjacent to this sub-expression.
+			if sub.Op != syntax.OpLiteral || sub.Flags&syntax.FoldCase != 0 || !suffixes.AllComplete() {
 				// Non-literal encountered: mark all suffixes as incomplete and stop
 				lits := make([]Literal, suffixes.Len())
 				for j := 0; j < suffixes.Len(); j++ {
